@@ -66,9 +66,11 @@ package codegen
 // package names the generated code imports.
 //@ func fixReservedGo
 //@   property C01
-//   -- representation invariant of the package table (its initial value): no entry ends with an underscore
-//@   requires forall k String :: inMap(isPackage, k) && isPackage[k] ==> !hasSuffix(k, "_")
-//@   ensures* not.reserved: !isPredeclared(result) && !isKeyword(result) && !(inMap(isPackage, result) && isPackage[result])
+//   -- under the representation invariant of the package table (its initial value, checked by the assumption audit codegen-models;
+//   -- nothing writes the table afterwards): no entry ends with an underscore
+//@   let tableOK = forall k String :: inMap(isPackage, k) && isPackage[k] ==> !hasSuffix(k, "_")
+//@   ensures* not.reserved: tableOK ==> !isPredeclared(result) && !isKeyword(result) && !(inMap(isPackage, result) && isPackage[result])
 //@   ensures* minimal: !isPredeclared(w) && !isKeyword(w) && !(inMap(isPackage, w) && isPackage[w]) ==> result == w
 //@   modifies* nothing
 //@   frameprop C01
+
